@@ -338,8 +338,15 @@ class FileSplice:
                 depth_verus += 1
             if st.startswith('} // verus!'):
                 depth_verus = max(0, depth_verus - 1)
-            m = re.match(r'^(pub(\([a-z]+\))?\s+)?const\s+\w+\s*:\s*(usize|u8|u16|u32|u64)\s*=\s*[0-9a-fA-Fx_ +*()]+;\s*(//.*)?$', line)
-            if m and depth_verus == 0 and not line.startswith(' '):
+            m = (re.match(r'^(pub(\([a-z]+\))?\s+)?const\s+\w+\s*:\s*(usize|u8|u16|u32|u64)\s*=\s*[0-9a-fA-Fx_ +*()]+;\s*(//.*)?$', line)
+                 or re.match(r'^(pub(\([a-z]+\))?\s+)?const\s+\w+\s*:\s*\[u8;\s*\d+\]\s*=\s*\[[0-9a-fA-Fxu_]+;\s*\d+\];\s*(//.*)?$', line))
+            ma = re.match(r'^((?:pub(?:\([a-z]+\))?\s+)?)const\s+(\w+)\s*:\s*\[u8;\s*(\d+)\]\s*=\s*\[([0-9a-fA-Fxu_]+);\s*(\d+)\];', line)
+            if ma and depth_verus == 0 and not line.startswith(' '):
+                vis, name, n, val, n2 = ma.groups()
+                out.append("verus!{ %sexec const %s: [u8; %s] ensures %s@.len() == %s, forall|i: int| 0 <= i < %s ==> %s@[i] == %s { [%s; %s] } }"
+                           % (vis, name, n, name, n, n, name, val, val, n2))
+                self.stats.add('wrapped_items')
+            elif m and depth_verus == 0 and not line.startswith(' '):
                 out.append('verus!{ ' + re.sub(r'\s*//.*$', '', line) + ' }')
                 self.stats.add('wrapped_items')
             else:
